@@ -61,6 +61,35 @@ CHECKS = {
         note="Trusted: h/sem.h (my transcription of MIR.md). Values outside the grid are not sampled in quick; results MIR.md leaves undefined "
              "are not compared.",
         design="3/C02"),
+    "C01": dict(
+        technique=TECH + "generated whole programs run on every engine and compared with an independent reference interpreter of the program "
+                         "AST (result, memory, module data, ordered external-call log); ASan/UBSan/assert build as second monitor",
+        text="Structured random single-module programs (1-8 functions; 64/32-bit integer and FP code, narrow memory accesses with "
+             "base+index*scale+disp over three regions, bounded and nested loops, if/else on every branch class incl. overflow branches, "
+             "switch, laddr/jmpi and lref dispatch, irreducible loops, allocas, calls, inline calls, bounded recursion, logging external "
+             "calls) run on 6 input pairs by MIR_interp and generated code at -O0..-O3; every observable is compared with the reference model, "
+             "which shares no code with the library. Fast and ASan/assert builds; dispatch programs in their own sub-run.",
+        note="Trusted: h/prog.h reference model + h/sem.h. Programs are well-defined by construction; features MIR.md leaves undefined are "
+             "never generated. The laddr/jmpi sub-run reports the open finding jmpi-edge-split.",
+        design="3/C01"),
+    "C03": dict(
+        technique=TECH + "same generated programs across all execution interfaces (interp, interp C interface, eager/lazy/lazy-BB generation) "
+                         "against the reference model, repeated entry calls in random order, public address stability",
+        text="Programs of 1-3 modules with imports/exports are linked once per interface (MIR_set_interp_interface, MIR_interp, "
+             "MIR_set_gen_interface, MIR_set_lazy_gen_interface, MIR_set_lazy_bb_gen_interface at -O0 and -O2) and the entry is called 9 times "
+             "with 6 input pairs in random order through item->addr, so lazy thunks are taken on first and later calls; results, memory, "
+             "module data and external-call order must equal the reference model and item->addr must never change.",
+        note="Trusted: reference model. One interface per context (mixing interfaces in one context is C16's subject).",
+        design="3/C03"),
+    "C04": dict(
+        technique=TECH + "reference model executes the program as written; library built three ways (default, never-inline, always-inline) "
+                         "so every call site is seen both called and inlined",
+        text="Programs of 1-2 modules biased to what MIR_link's simplification and inlining rewrite (call/inline insns with narrow "
+             "argument and result types, multiple results, allocas in caller and callee incl. the frame-first shape c2mir emits, early "
+             "returns, recursion, memory operands that simplification splits) run by MIR_interp, gen -O0 and gen -O2 on three builds of the "
+             "library whose inlining thresholds differ; all are compared with the reference model, which never inlines or simplifies.",
+        note="Trusted: reference model. The always-inline build bounds caller growth (6x / 1500 insns) to keep nested call chains finite.",
+        design="3/C04"),
     "C14": dict(
         technique=TECH + "layout/content oracle recomputed from the declarations, read from the live process after load+link",
         text="Generated modules of 3-40 data-like items (every element type, lengths incl. 0, named/anonymous mixtures, sections interrupted by "
